@@ -56,9 +56,9 @@ Proof.
   intros o a b c; split.
   - destruct o.
     1-3: destruct a, b; cbn; intros H; inversion H; subst;
-         first [ apply B_arith_zahl; reflexivity
+         first [ apply B_arith_byte; reflexivity
                | apply B_arith_komma; cbn; auto; fail
-               | apply B_arith_byte; cbn; auto ].
+               | apply B_arith_zahl; cbn; auto ].
     + destruct a, b; cbn; intros H; inversion H; subst; apply B_durch; reflexivity.
     + destruct a, b; cbn; intros H; inversion H; subst;
         first [ apply B_mod_byte | apply B_mod_zahl; cbn; auto ].
